@@ -151,6 +151,11 @@ def conv(text, dtype):
             if t in ("false", "0", "f"):
                 return True, False
             return False, None
+        if dtype in ("time", "date", "datetime"):
+            import datetime as _dt
+            fmt = {"time": "%H:%M:%S", "date": "%Y-%m-%d", "datetime": "%Y-%m-%d %H:%M:%S"}[dtype]
+            v = _dt.datetime.strptime(text.strip(), fmt)       # the documented formats; fields need no leading zero
+            return True, {"time": v.time(), "date": v.date(), "datetime": v}[dtype]
         return True, text
     except ValueError:
         return False, None
